@@ -248,6 +248,16 @@ def run_c01(tier, seed, scale, verif):
     t0 = time.time()
     cases = export(verif, "hostile", int((4000 if tier == "quick" else 50000) * scale), seed)
     shapes, samples = set(), []
+    # a third of the documents are checked under the server's other parse-time settings
+    srng = random.Random(seed * 31 + 1)
+    for c in cases:
+        x = srng.random()
+        if x < 0.2:
+            c["settings"] = {"isolateEnglish": True}
+        elif x < 0.3:
+            c["settings"] = {"isolateEnglish": True, "markdown": {"IgnoreLinkTitle": True}, "dialect": srng.choice(["British", "Australian", "Canadian"])}
+        elif x < 0.35:
+            c["settings"] = {"markdown": {"IgnoreLinkTitle": True}, "diagnosticSeverity": "error", "codeActions": {"ForceStable": True}}
 
     def judge(c, status, diags):
         if status == "ok":
